@@ -64,6 +64,20 @@ Theorem c20_expired_never_applied : forall (V : Type) e store_ok upd now b (c : 
   b_expiry b <= now -> exists code, update_with_buffer e store_ok upd now b c = Err code.
 Proof. intros. apply expired_never_applied; assumption. Qed.
 
+(* the updatable set follows grants and revocations: a request must change the bit, a successful request sets it to
+   the requested value and touches no other key; after a revocation the config keeper is rejected for that key *)
+Theorem c20_set_updatable_spec : forall valid upd k v upd', set_updatable valid upd k v = Ok upd' ->
+  valid k = true /\ upd k = negb v /\ upd' k = v /\ forall k', k' <> k -> upd' k' = upd k'.
+Proof. exact set_updatable_ok. Qed.
+Theorem c20_set_updatable_must_change : forall valid upd k,
+  set_updatable valid upd k (upd k) = Err E_PRECOND \/ valid k = false.
+Proof. exact set_updatable_same_rejected. Qed.
+Theorem c20_revoked_key_rejected : forall (V : Type) e valid upd upd' (c : @cfg V) k v,
+  set_updatable valid upd k false = Ok upd' ->
+  signed e = true -> is_keeper e = false -> is_config_keeper e = true -> mk_status e = Enabled ->
+  exists code, update_one e true valid upd' c k v = Err code.
+Proof. intros. eapply revoked_key_rejected; eassumption. Qed.
+
 (* FINDING (class 1, MarketKeeperRoleNotEnabled): where MARKET_KEEPER is disabled or was never created, every
    update is rejected — also the config keeper's request for an updatable key, which the property text grants *)
 Theorem c20_mk_role_not_enabled_blocks_everyone : forall e valid upd (c : @cfg Z) k v,
